@@ -250,6 +250,7 @@ def make_spec():
     s.stubs["ResultQuantificationConstraint.assert_satisfaction"] = stub_assert_satisfaction
     s.stubs["QueryObjectDescriptor._evaluate__"] = stub_child_evaluate
     s.loops[("ResultQuantifier._evaluate__", 0)] = LoopSpec(inv=loop_inv, name="count = consumed = yielded <= upper")
+    s.stream_loops["child"] = s.loops[("ResultQuantifier._evaluate__", 0)]      # wherever the loop over the child's results lives
     return s
 
 
